@@ -123,7 +123,10 @@ type knownEntry struct {
 }
 
 // properties whose theorems carry an oracle hypothesis as a premise
-var oracleHypothesisUsed = map[string]bool{"C04": true, "C09": true, "C19": true}
+var oracleHypothesisUsed = map[string]bool{"C01": true, "C04": true, "C05": true, "C09": true, "C19": true}
+
+// properties whose theorems carry oracle_ok (H4, H5) as a premise
+var oracleOkUsed = map[string]bool{"C01": true, "C05": true}
 
 var knownEntries []knownEntry
 
@@ -208,6 +211,11 @@ func (c *Ctx) Finish(proof *proofInfo, rule string, trusted []string, assumption
 			c.Report(Finding{Class: "obligation", What: fmt.Sprintf("oracle hypothesis %s, a premise of this property's theorems, fails on the real IDNA library for %q", name, l), Case: Case{Kind: "oracle", Input: l[0]}})
 		}
 	}
+	for name, l := range map[string][]string{"H4 (an accepted domain-to-ASCII result is non-empty ASCII)": oracleH4Fail, "H5 (a domain containing U+FFFD is rejected)": oracleH5Fail} {
+		if len(l) > 0 && oracleOkUsed[c.Prop] {
+			c.Report(Finding{Class: "obligation", What: fmt.Sprintf("oracle hypothesis %s, a premise of this property's theorems (oracle_ok), fails on the real IDNA library for %q", name, l), Case: Case{Kind: "oracle", Input: l[0]}})
+		}
+	}
 	wall := time.Since(c.Start).Seconds()
 	// prefer a genuine violation over a correspondence disagreement as the reported replay
 	sort.SliceStable(c.findings, func(i, j int) bool {
@@ -227,6 +235,8 @@ func (c *Ctx) Finish(proof *proofInfo, rule string, trusted []string, assumption
 		"oracle_H1_failures":  oracleH1Fail,
 		"oracle_H2_failures":  oracleH2Fail,
 		"oracle_H3_failures":  oracleH3Fail,
+		"oracle_H4_failures":  oracleH4Fail,
+		"oracle_H5_failures":  oracleH5Fail,
 		"known_findings_hit":  c.known,
 		"notes":               c.notes,
 		"outcome_signatures":  len(c.sigset),
